@@ -209,11 +209,39 @@ def _tr_in(av):
 
 
 # ---- query runner --------------------------------------------------------------------------------------
+def _cvc5(smt2_text, timeout_s=60):
+    """second opinion from the cvc5 binary (1.0.3) on the same SMT-LIB text; 'unavailable' if it cannot be run"""
+    import os
+    import subprocess
+    import tempfile
+    exe = '/usr/bin/cvc5'
+    if not os.path.exists(exe):
+        return 'unavailable'
+    fd, path = tempfile.mkstemp(suffix='.smt2', prefix='vp_q_')
+    try:
+        with os.fdopen(fd, 'w') as f:
+            f.write('(set-logic ALL)\n' + smt2_text)
+        try:
+            p = subprocess.run([exe, '--strings-exp', '--tlimit=%d' % (timeout_s * 1000), path],
+                               capture_output=True, text=True, timeout=timeout_s + 10)
+        except subprocess.TimeoutExpired:
+            return 'timeout'
+        out = (p.stdout or '').strip().splitlines()
+        if '(error' in (p.stdout or '') or '(error' in (p.stderr or ''):
+            return 'error'
+        return out[0] if out and out[0] in ('sat', 'unsat', 'unknown') else 'error'
+    finally:
+        os.unlink(path)
+
+
 class Queries:
-    def __init__(self, timeout_ms=60000):
+    def __init__(self, timeout_ms=60000, cross=None):
+        import os
         self.timeout_ms = timeout_ms
         self.log = []
         self.total = 0.0
+        self.cross = (os.environ.get('VERIF_TIER') == 'thorough') if cross is None else cross
+        self.disagreements = []
 
     def check(self, name, *constraints, expect='unsat'):
         """returns ('unsat'|'sat'|'unknown', model-or-None)"""
@@ -225,5 +253,12 @@ class Queries:
         dt = time.time() - t0
         self.total += dt
         m = s.model() if r == 'sat' else None
-        self.log.append({'query': name, 'result': r, 'expected': expect, 'time_s': round(dt, 3)})
+        entry = {'query': name, 'result': r, 'expected': expect, 'time_s': round(dt, 3)}
+        if self.cross:
+            # thorough tier: the same assertions through cvc5; sat-vs-unsat disagreement is a harness error
+            c = _cvc5(s.to_smt2())
+            entry['cvc5'] = c
+            if {c, r} == {'sat', 'unsat'}:
+                self.disagreements.append(name)
+        self.log.append(entry)
         return r, m
